@@ -87,6 +87,15 @@ def region_spec(reg, rid):
             "r": float(fmt_mm(reg["r"]))}
 
 
+# a custom @-command action table (command, parameter pattern, action)
+CUSTOM_AT = [("Excl", r"^\s*go(\s|$)", "enable_exclusion"),
+             ("Excl", r"^\s*stop(\s|$)", "disable_exclusion"),
+             ("ExcludeRegion", None, "disable_exclusion"),
+             # patterns that also match an empty parameter string (a blank pattern field is
+             # stored as "")
+             ("ExcludeOff", "", "disable_exclusion"),
+             ("ExcludeOn", r"^\s*(on)?\s*$", "enable_exclusion")]
+
 _WORD = re.compile(r"([A-Za-z])([-+]?[0-9]*\.?[0-9]+)")
 
 
@@ -101,8 +110,15 @@ def respell(text, rng):
         return text
     if not all(_WORD.fullmatch(p) for p in parts[1:]):
         return text
-    how = rng.choice(["glue", "glue", "blanks", "plus", "zeros", "trail", "bare", "bare"])
+    how = rng.choice(["glue", "glue", "blanks", "plus", "zeros", "trail", "bare", "bare",
+                      "code0", "code0"])
     words = parts[1:]
+    if how == "code0":
+        # two-digit code numbers as CAM-style post-processors write them: G01, G00, G02
+        code = parts[0]
+        if len(code) == 2:
+            code = code[0] + "0" + code[1]
+        return code + " " + " ".join(words)
     if how == "bare":
         # 0.5 -> .5, -0.75 -> -.75 (and a trailing point on integers: 35 -> 35.)
         def bare(word):
@@ -120,8 +136,10 @@ def respell(text, rng):
     elif how == "zeros":
         words = [w + ("00" if "." in w else ".0") for w in words]
     if how == "glue":
-        # (a blank stays in front of an E word: "35E-1" is an exponent for strtod-style readers)
-        return parts[0] + "".join((" " + w) if w[0] in "Ee" else w for w in words)
+        # (half of the time a blank stays in front of an E word: "35E-1" looks like an exponent
+        # to strtod-style readers, which G-code readers must not be)
+        keep = rng.random() < 0.5
+        return parts[0] + "".join((" " + w) if (keep and w[0] in "Ee") else w for w in words)
     if how == "blanks":
         return parts[0] + "  " + "   ".join(words)
     if how == "trail":
@@ -148,6 +166,8 @@ class MotionGen(object):
         self.tiny = foc == "tiny"
         # alternative spellings of move commands (section 8, rounds 4/5: input-space gaps)
         self.respell = rng.random() < 0.5
+        # regions deleted / shrunk / moved in the middle of the program
+        self.useRegEdit = rng.random() < 0.4
         self.tinyE = Decimal(0)
         self.useInch = ((foc == "frames" and rng.random() < 0.7) or rng.random() < 0.15
                         or (foc == "extrusion" and rng.random() < 0.25)) and not self.tiny
@@ -187,9 +207,7 @@ class MotionGen(object):
             if not cfg["xg"]:
                 cfg["xg"]["M204"] = "merge"
         if self.useAt and rng.random() < 0.3:
-            cfg["at"] = [("Excl", r"^\s*go(\s|$)", "enable_exclusion"),
-                         ("Excl", r"^\s*stop(\s|$)", "disable_exclusion"),
-                         ("ExcludeRegion", None, "disable_exclusion")]
+            cfg["at"] = list(CUSTOM_AT)
         if given is not None:
             cfg = given
             self.useDeferred = self.useDeferred and bool(cfg.get("xg"))
@@ -438,6 +456,20 @@ class MotionGen(object):
         gh.p = newp
         self.emit(code + " " + " ".join(words))
 
+    def eonly_text(self, wtxt, feed):
+        """Spelling of an E-only command: word order, and now and then a signed E word glued to
+        the digits of the feed rate (G1F2400E-1), which is not an exponent in G-code."""
+        rng = self.rng
+        if not feed:
+            return "G1 " + wtxt
+        roll = rng.random()
+        if roll < 0.5:
+            return "G1 " + wtxt + feed
+        if roll < 0.8:
+            return "G1" + feed + " " + wtxt
+        signed = wtxt if wtxt[1] in "+-" else "E+" + wtxt[1:]
+        return "G1" + rng.choice([" ", ""]) + feed.strip() + signed
+
     def act_retract_cycle(self):
         rng = self.rng
         gh = self.ghost
@@ -455,7 +487,7 @@ class MotionGen(object):
                 gh.e += actual
                 gh.ret = -actual
                 feed = (" F" + str(rng.choice([1800, 2400]))) if rng.random() < 0.5 else ""
-                self.emit("G1 " + wtxt + feed)
+                self.emit(self.eonly_text(wtxt, feed))
         elif gh.ret == -1:
             self.emit(rng.choice(["G11", "G11", "G11 S1"]))
             gh.ret = 0
@@ -466,7 +498,7 @@ class MotionGen(object):
             gh.e += actual
             gh.ret = 0
             feed = (" F" + str(rng.choice([1800, 2400]))) if rng.random() < 0.5 else ""
-            self.emit("G1 " + wtxt + feed)
+            self.emit(self.eonly_text(wtxt, feed))
 
     def act_owed(self):
         """
@@ -492,6 +524,117 @@ class MotionGen(object):
         if gh.ret != 0:
             self.act_retract_cycle()
         self.act_move("out")
+
+    def act_home_episode(self):
+        """
+        One axis is homed while an episode is open, the program switches to relative positioning
+        and leaves the region.  The re-positioning on exit is relative to where the printer
+        physically is -- the pre-episode position, except for the homed axis.  The moves that
+        follow are aimed so that a tool displaced by the pre-episode coordinate of the other axis
+        (or by minus that of the homed one) would end up inside a region, while the file's own
+        destinations stay outside.
+        """
+        rng = self.rng
+        gh = self.ghost
+        rects = [r for r in self.regions if r["t"] == "rect"]
+        if not rects or gh.inch or not gh.abs or any(gh.off[a] for a in "XYZ") or self.cleanMode:
+            return
+        x0, y0 = gh.p["X"], gh.p["Y"]
+        if self.excluded(x0, y0) or x0 < 10 * G_PER_MM or y0 < 10 * G_PER_MM:
+            return
+        reg = rng.choice(rects)
+        mm = G_PER_MM
+
+        def ok(x, y):
+            return 0 <= x <= BED and 0 <= y <= BED and not self.excluded(x, y) \
+                and self.min_border_distance(x, y) >= mm
+        inx = rng.randint(reg["x1"] // mm + 1, max(reg["x1"] // mm + 1, reg["x2"] // mm - 1)) * mm
+        iny = rng.randint(reg["y1"] // mm + 1, max(reg["y1"] // mm + 1, reg["y2"] // mm - 1)) * mm
+        if not self.excluded(inx, iny) or self.min_border_distance(inx, iny) < mm:
+            return
+        axis = rng.choice(["X", "Y"])
+        disp = rng.choice([(0, y0) if axis == "X" else (x0, 0),
+                           (-x0, 0) if axis == "X" else (0, -y0)])
+        # T2: outside every region, but inside `reg` when displaced
+        t2 = (inx - disp[0], iny - disp[1])
+        # T1: any exit point outside, and outside when displaced too (so that T2 decides)
+        for _ in range(40):
+            t1 = (rng.randint(0, 190) * mm, rng.randint(0, 190) * mm)
+            if ok(*t1) and not self.excluded(t1[0] + disp[0], t1[1] + disp[1]):
+                break
+        else:
+            return
+        if not ok(*t2):
+            return
+        self.emit("G1 X%s Y%s" % (fmt_mm(inx), fmt_mm(iny)))
+        self.emit("G28 " + axis)
+        cur = {"X": inx, "Y": iny}
+        cur[axis] = 0
+        self.emit("G91")
+        for tx, ty in (t1, t2):
+            self.emit("G1 X%s Y%s" % (fmt_mm(tx - cur["X"]), fmt_mm(ty - cur["Y"])))
+            cur = {"X": tx, "Y": ty}
+        self.emit("G90")
+        gh.p["X"], gh.p["Y"] = t2
+        gh.exact["X"] = gh.exact["Y"] = True
+        if self.cfg["g90e"]:
+            gh.eabs = True
+
+    def act_region_edit(self):
+        """
+        The region list is edited between two commands (what the API does when shrinking is
+        allowed, or between prints): a region is deleted, shrunk or moved -- also while the tool
+        is inside it.
+        """
+        rng = self.rng
+        gh = self.ghost
+        if not self.regions:
+            return
+        old = rng.choice(self.regions)
+        op = rng.choice(["delete", "shrink", "shrink", "move", "grow"])
+        mm = G_PER_MM
+        if op == "delete":
+            new = None
+        elif old["t"] == "rect":
+            new = dict(old)
+            if op == "shrink" and old["x2"] - old["x1"] >= 4 * mm and old["y2"] - old["y1"] >= 4 * mm:
+                side = rng.choice(["x1", "y1", "x2", "y2"])
+                cut = rng.randint(1, max(1, (old["x2"] - old["x1"]) // mm // 2)) * mm \
+                    if side[0] == "x" else \
+                    rng.randint(1, max(1, (old["y2"] - old["y1"]) // mm // 2)) * mm
+                new[side] += cut if side in ("x1", "y1") else -cut
+            elif op == "move":
+                dx, dy = rng.choice([-20, -5, 5, 20]) * mm, rng.choice([-20, 0, 5]) * mm
+                new.update(x1=old["x1"] + dx, x2=old["x2"] + dx, y1=old["y1"] + dy,
+                           y2=old["y2"] + dy)
+            else:
+                new.update(x1=old["x1"] - 2 * mm, y2=old["y2"] + 3 * mm)
+        else:
+            new = dict(old)
+            if op == "shrink" and old["r"] >= 10 * mm:
+                new["r"] = old["r"] - 5 * mm
+            elif op == "move":
+                new.update(cx=old["cx"] + rng.choice([-15, 10]) * mm,
+                           cy=old["cy"] + rng.choice([-10, 0, 15]) * mm)
+            else:
+                new["r"] = old["r"] + 5 * mm
+        if new is not None:
+            box = region_bbox(new)
+            if box[0] < 5 * mm or box[1] < 5 * mm or box[2] > BED or box[3] > BED:
+                return
+        # the tool must not end up (nearly) on a border of the edited list
+        saved = self.regions
+        self.regions = [r for r in saved if r is not old] + ([new] if new is not None else [])
+        safe = self.disc_safe(gh.p["X"], gh.p["Y"]) and \
+            (self.min_border_distance(gh.p["X"], gh.p["Y"]) >= 0.5 * G_PER_MM
+             or all(gh.exact[a] for a in "XY"))
+        if not safe:
+            self.regions = saved
+            return
+        if new is None:
+            self.steps.append(("delr", old["id"]))
+        else:
+            self.steps.append(("updr", region_spec(new, old["id"])))
 
     def act_g92e(self):
         gh = self.ghost
@@ -567,7 +710,9 @@ class MotionGen(object):
         if self.cfg["at"]:
             cmd, par = rng.choice([("Excl", "go"), ("Excl", "stop"), ("Excl", "stop now"),
                                    ("Excl", "going"), ("ExcludeRegion", "anything"),
-                                   ("ExcludeRegion", ""), ("Other", "stop"), ("Excl", "")])
+                                   ("ExcludeRegion", ""), ("Other", "stop"), ("Excl", ""),
+                                   ("ExcludeOff", ""), ("ExcludeOn", ""), ("ExcludeOn", "on"),
+                                   ("ExcludeOff", "now"), ("ExcludeOn", "off")])
         else:
             cmd, par = rng.choice([("ExcludeRegion", "disable"), ("ExcludeRegion", "enable"),
                                    ("ExcludeRegion", "off"), ("ExcludeRegion", "on"),
@@ -762,7 +907,9 @@ class MotionGen(object):
         if rng.random() < 0.3:
             # sub-coded variants (M204.1, G4.2 ...) belong to the code the mode is configured for
             code += "." + rng.choice(["1", "2", "3", "0"])
-        self.emit(code + " " + " ".join(words))
+        if rng.random() < 0.15:
+            words = []          # the bare code, without any parameter
+        self.emit((code + " " + " ".join(words)).strip())
 
     def act_other(self):
         rng = self.rng
@@ -876,12 +1023,15 @@ class MotionGen(object):
             "move": 10, "retract": 3 if self.retKind != "n" else 0, "g92e": 0.6,
             "g92xyz": 0.8 if self.useG92 else 0, "mode": 1.5 if (self.useRel or self.useInch) else 0.1,
             "at": 1.5 if self.useAt else 0, "deferred": 2.5 if self.useDeferred else 0.1,
-            "other": 1.0, "arc": 2.5 if self.useArcs else 0, "addr": 0.0, "home": 0.15,
+            "other": 1.0, "arc": 2.5 if self.useArcs else 0, "addr": 0.0,
+            "home": 0.15 if self.cleanMode else 0.4,
             "escope": 0.3 if self.outOfScope else 0.0,
             "offon": 1.0 if (self.useAt and not self.cleanMode) else 0.0,
             "shadow": 0.0 if self.cleanMode in ("noregions", "disabled") else 0.8,
             "cliparc": 1.2 if self.useArcs else 0.0,
             "zfine": 0.5, "owed": 0.5 if self.retKind != "n" else 0.0,
+            "homeep": 0.5 if self.useRel else 0.1,
+            "regedit": 0.5 if (self.useRegEdit and not self.cleanMode) else 0.0,
             "roundtrip": 0.0 if self.cleanMode else (1.5 if self.tiny else
                                                      (0.3 if self.useRel else 0.0)),
         }
@@ -918,6 +1068,10 @@ class MotionGen(object):
                 self.act_zfine()
             elif name == "owed":
                 self.act_owed()
+            elif name == "homeep":
+                self.act_home_episode()
+            elif name == "regedit":
+                self.act_region_edit()
             elif name == "cliparc":
                 self.act_clip_arc()
             elif name == "deferred":
@@ -927,11 +1081,15 @@ class MotionGen(object):
             elif name == "arc":
                 self.act_arc()
             elif name == "home":
-                self.emit("G28")
+                # all axes, or only some of them (also in the middle of an episode)
+                axes = rng.choice(["", "", "X", "Y", "X Y", "Z", "X0", "Y0 Z0", "X Y Z"])
+                self.emit(("G28 " + axes).strip())
                 gh = self.ghost
-                gh.p = {"X": 0, "Y": 0, "Z": 0}
-                gh.off = {"X": 0, "Y": 0, "Z": 0}
-                gh.exact = {"X": True, "Y": True, "Z": True}
+                for axis in "XYZ":
+                    if not axes or axis in axes:
+                        gh.p[axis] = 0
+                        gh.off[axis] = 0
+                        gh.exact[axis] = True
             elif name == "escope":
                 self.emit(rng.choice(["M83", "M82", "M206 X1", "G1 E-1", "G1 E1", "G10", "G11"]))
                 if self.steps[-1][1] in ("M83",):
